@@ -354,4 +354,15 @@ def main(argv=None):
 
 
 if __name__ == "__main__":
-    sys.exit(main())
+    try:
+        rc = main()
+    except SystemExit:
+        raise
+    except BaseException:  # noqa: BLE001 - an exception of the machinery itself (e.g. a harness module that cannot be imported against a changed
+        # tree) must never look like a violation (exit 1 is reserved for replayed counterexamples): reserved harness-error code
+        import traceback
+
+        traceback.print_exc()
+        print("ENGINE-ERROR: the check itself failed (see traceback); nothing is claimed either way")
+        rc = 3
+    sys.exit(rc)
